@@ -1,32 +1,38 @@
-(* Invariants of the gate LTS (Gate.v), for every action sequence. *)
+(* Invariants of the gate LTS (Gate.v), for both epoll disciplines and every action sequence. *)
 From Coq Require Import List Arith Lia Bool.
 Import ListNotations.
 Require Import Gate.
 
 Section P.
 Variable A : Type.
+Variable oneshot : bool.
 Notation st := (st A).
 Notation action := (action A).
+Notation step := (@step A oneshot).
+Notation run := (@run A oneshot).
+Notation enabled := (@enabled A oneshot).
 
 (* accounting: nothing is lost, duplicated or reordered between the socket and the callback *)
 Definition Acc (s : st) : Prop := delivered s ++ avail s = sent s.
 
-(* somebody is going to read the socket again *)
+Definition alive (s : st) : bool := match task s with Some _ => true | None => false end.
+
+(* somebody is going to read the socket again (one-shot: a task that ends re-arms, and the re-arm queues what is unread) *)
 Definition will_read (s : st) : bool :=
-  edge s || spawning s ||
+  edge s || held s || spawning s || (0 <? rearm s) ||
   match task s with
-  | Some TReading | Some TDraining => true
-  | Some TAtCheck => eofflag s || (r s =? 2)
-  | Some TAtDec => r s =? 2
+  | Some TReading | Some TDraining | Some TClosing => true
+  | Some TAtCheck => eofflag s || (r s =? 2) || oneshot
+  | Some TAtDec => (r s =? 2) || oneshot
   | None => false
   end.
 
 (* somebody is going to load readEOF again *)
 Definition will_check (s : st) : bool :=
-  edge s || spawning s ||
+  edge s || held s || spawning s || (0 <? rearm s) ||
   match task s with
-  | Some TReading | Some TAtCheck | Some TDraining => true
-  | Some TAtDec => r s =? 2
+  | Some TReading | Some TAtCheck | Some TDraining | Some TClosing => true
+  | Some TAtDec => (r s =? 2) || oneshot
   | None => false
   end.
 
@@ -38,8 +44,15 @@ Record Ctl (s : st) : Prop := {
   c_ntasks : ntasks s = match task s with Some _ => 1 | None => 0 end;
   c_data : closed s = false -> avail s <> [] -> will_read s = true;      (* no lost edge *)
   c_eof : closed s = false -> eofflag s = true -> will_check s = true;   (* no lost end of stream *)
+  (* the shutdown itself is not lost before the poller has marked it *)
+  c_hup : closed s = false -> eofsent s = true -> eofflag s = false ->
+          edge s || held s || (oneshot && (spawning s || (0 <? rearm s) || alive s)) = true;
+  (* one-shot: a disarmed descriptor is somebody's job *)
+  c_armed : oneshot = true -> closed s = false -> armed s = false -> held s || spawning s || (0 <? rearm s) || alive s = true;
+  c_rearm : 0 < rearm s -> oneshot = true;
   c_flag : eofflag s = true -> eofsent s = true;
   c_drain : task s = Some TDraining -> eofflag s = true;
+  c_closing : task s = Some TClosing -> eofflag s = true /\ avail s = [];
   c_closed : closed s = true -> 1 <= r s /\ task s = None /\ spawning s = false /\ avail s = [] /\ eofsent s = true
 }.
 
@@ -48,21 +61,27 @@ Proof.
   intros H. rewrite firstn_length in H. apply skipn_all2. lia.
 Qed.
 
+Ltac fields := cbn [r task held spawning rearm avail edge armed eofsent eofflag closed sent delivered ntasks upd_kernel].
+
 Lemma step_acc s a : Acc s -> Acc (step s a).
 Proof.
-  unfold Acc. intros H. destruct a as [x d| | | | |buf| | |buf]; cbn [step].
-  - destruct (eofsent s); [exact H|]. cbn [delivered avail sent]. rewrite app_assoc, H. reflexivity.
+  unfold Acc. intros H. destruct a as [x d| | | | | | |buf| | |buf| |]; cbn [Gate.step].
+  - destruct (eofsent s); [exact H|]. fields. rewrite app_assoc, H. reflexivity.
   - destruct (eofsent s); exact H.
-  - destruct (edge s && negb (spawning s)); [destruct (2 <=? r s)|]; exact H.
+  - destruct (oneshot && negb (closed s)); exact H.
+  - destruct (edge s && negb (held s) && negb (spawning s)); exact H.
+  - destruct (held s && eofsent s && negb (eofflag s) && negb (spawning s)); exact H.
+  - destruct (held s && negb (spawning s) && (negb (eofsent s) || eofflag s)); [destruct (2 <=? r s)|]; exact H.
   - destruct (spawning s); exact H.
-  - destruct (eofsent s && negb (eofflag s) && negb (spawning s)); exact H.
-  - destruct (task s) as [[]|]; cbn [delivered avail sent]; try exact H.
+  - destruct (task s) as [[]|]; fields; try exact H.
     rewrite <- app_assoc, firstn_skipn. exact H.
   - destruct (task s) as [[]|]; exact H.
   - destruct (task s) as [[]|]; try exact H. destruct (r s =? 1); exact H.
-  - destruct (task s) as [[]|]; try exact H. destruct (avail s) eqn:Ea; cbn [delivered avail sent].
+  - destruct (task s) as [[]|]; try exact H. destruct (avail s) eqn:Ea; fields.
     + rewrite app_nil_r in *. exact H.
     + rewrite <- app_assoc, firstn_skipn. exact H.
+  - destruct (task s) as [[]|]; exact H.
+  - destruct (0 <? rearm s); [destruct (closed s)|]; exact H.
 Qed.
 
 Ltac boolprop :=
@@ -75,62 +94,119 @@ Ltac boolprop :=
   | H : (_ =? _) = false |- _ => apply Nat.eqb_neq in H
   end.
 
-Lemma app_cons_not_nil (l : list A) x d : l ++ x :: d <> [].
-Proof. destruct l; discriminate. Qed.
-
-(* a finishing tactic for the simple clauses *)
-Ltac fin :=
-  intros;
+(* finishing tactic: forward chaining on the hypotheses, then the boolean clauses by computation *)
+Ltac fwd :=
   repeat match goal with
   | H : _ /\ _ |- _ => destruct H
   | H : ?x = ?x -> _ |- _ => specialize (H eq_refl)
   | H : Some _ <> None -> _ |- _ => specialize (H ltac:(discriminate))
   | H : ?P -> _, H' : ?P |- _ => specialize (H H')
+  end.
+
+Ltac boolfin :=
+  unfold will_read, will_check, alive, readable, raise in *; fields;
+  repeat match goal with
+  | H : ?x = true |- _ => is_var x; subst x
+  | H : ?x = false |- _ => is_var x; subst x
+  | H : ?f ?s = true |- context[?f ?s] => rewrite H
+  | H : ?f ?s = false |- context[?f ?s] => rewrite H
   end;
+  cbn [orb andb negb Nat.eqb];
+  repeat rewrite orb_true_r; repeat rewrite orb_false_r; repeat rewrite andb_true_r;
+  try reflexivity; try assumption.
+
+Ltac fin :=
+  intros; fwd;
   try discriminate; try contradiction; try congruence; try lia; auto;
   try (repeat split; try discriminate; try congruence; try lia; auto);
-  try (unfold will_read, will_check; cbn [r task spawning avail edge eofsent eofflag closed sent delivered ntasks set_task];
-       repeat rewrite orb_true_r; reflexivity).
+  try solve [boolfin];
+  try solve [destruct oneshot; boolfin];
+  try solve [unfold alive in *; cbn in *; repeat rewrite orb_true_r in *; repeat rewrite andb_true_r in *;
+             repeat rewrite orb_false_r in *; first [assumption | reflexivity]].
 
-Ltac fields := cbn [r task spawning avail edge eofsent eofflag closed sent delivered ntasks set_task].
+Ltac bcases s :=
+  destruct (edge s), (held s), (spawning s), (0 <? rearm s), (task s) as [[]|]; cbn in *; repeat rewrite orb_true_r in *;
+  try reflexivity; try discriminate; try assumption.
+
+Ltac norm :=
+  cbn in *; repeat rewrite orb_false_r in *; repeat rewrite orb_true_r in *;
+  repeat rewrite andb_false_r in *; repeat rewrite andb_true_r in *.
 
 Lemma spawning_no_task s : Ctl s -> task s <> None -> spawning s = false.
 Proof.
   intros HC Ht. destruct (spawning s) eqn:E; [|reflexivity]. destruct (c_spawn s HC E) as [H _]. contradiction.
 Qed.
 
+Lemma idle_has_task s : Ctl s -> closed s = false -> spawning s = false -> 1 <= r s -> task s <> None.
+Proof. intros HC Hc Hs Hr Hn. pose proof (c_idle s HC Hc Hn Hs). lia. Qed.
+
 Lemma ctl_arrive s x d : Ctl s -> Ctl (step s (Arrive x d)).
 Proof.
-  intros HC. cbn [step]. destruct (eofsent s) eqn:Ee; [exact HC|].
+  intros HC. cbn [Gate.step]. destruct (eofsent s) eqn:Ee; [exact HC|].
   destruct HC. constructor; fields; try solve [fin].
+  - (* data: armed (or ET): the arrival queues the descriptor; disarmed: it is somebody's job *)
+    intros Hc _. unfold will_read, raise; fields. destruct oneshot eqn:Eo; [|reflexivity].
+    destruct (armed s) eqn:Ea; [reflexivity|]. specialize (c_armed0 eq_refl Hc eq_refl).
+    unfold alive in c_armed0. bcases s.
 Qed.
 
 Lemma ctl_peereof s : Ctl s -> Ctl (step s PeerEOF).
 Proof.
-  intros HC. cbn [step]. destruct (eofsent s) eqn:Ee; [exact HC|].
+  intros HC. cbn [Gate.step]. destruct (eofsent s) eqn:Ee; [exact HC|].
+  destruct HC. constructor; fields; try solve [fin].
+  - intros Hc Hav. specialize (c_data0 Hc Hav). unfold will_read, raise in *; fields.
+    destruct oneshot, (armed s), (edge s); cbn in *; auto.
+  - (* the shutdown is queued, or the descriptor is disarmed and somebody's job *)
+    intros Hc _ Hf. unfold raise, alive; fields. destruct oneshot eqn:Eo; [|reflexivity].
+  destruct (armed s) eqn:Ea; [reflexivity|]. specialize (c_armed0 eq_refl Hc eq_refl).
+  unfold alive in c_armed0. destruct (edge s), (held s); cbn in *; try reflexivity. rewrite c_armed0. reflexivity.
+Qed.
+
+Lemma ctl_mod s : Ctl s -> Ctl (step s Mod).
+Proof.
+  intros HC. cbn [Gate.step]. destruct (oneshot && negb (closed s)) eqn:E; [|exact HC].
+  apply andb_true_iff in E as [Eo Ec]. apply negb_true_iff in Ec.
+  destruct HC. constructor; fields; try solve [fin].
+  intros _ Hav. unfold will_read, readable, nonempty; fields. destruct (avail s); [contradiction|]. cbn. rewrite orb_true_r. reflexivity.
+Qed.
+
+Lemma ctl_markeof s : Ctl s -> Ctl (step s PollMarkEOF).
+Proof.
+  intros HC. cbn [Gate.step]. destruct (held s && eofsent s && negb (eofflag s) && negb (spawning s)) eqn:E; [|exact HC].
+  apply andb_true_iff in E as [E Esf]. apply andb_true_iff in E as [E Eef]. apply andb_true_iff in E as [Eed Ees].
+  apply negb_true_iff in Esf. apply negb_true_iff in Eef.
+  destruct HC. constructor; fields; try solve [fin].
+Qed.
+
+Lemma ctl_take s : Ctl s -> Ctl (step s PollTake).
+Proof.
+  intros HC. cbn [Gate.step]. destruct (edge s && negb (held s) && negb (spawning s)) eqn:E; [|exact HC].
+  apply andb_true_iff in E as [E Esf]. apply andb_true_iff in E as [Eed Eh].
+  apply negb_true_iff in Esf. apply negb_true_iff in Eh.
   destruct HC. constructor; fields; try solve [fin].
 Qed.
 
 Lemma ctl_gate s : Ctl s -> Ctl (step s PollGate).
 Proof.
-  intros HC. cbn [step]. destruct (edge s && negb (spawning s)) eqn:E; [|exact HC].
-  apply andb_true_iff in E as [Eed Esf]. apply negb_true_iff in Esf.
-  destruct (2 <=? r s) eqn:E2; boolprop.
-  - (* counter already 2: the event is dropped; either the connection is closed or a task is alive and owes one more pass *)
-    assert (Hr2 : r s = 2) by (pose proof (c_range s HC); lia).
-    destruct (closed s) eqn:Ec.
-    + destruct (c_closed s HC Ec) as (Hr & Hta & _ & Hav & Hes).
-      destruct HC. constructor; fields; rewrite ?Ec, ?Hta in *; fin.
-    + assert (Hta : task s <> None).
-      { intros Hnone. pose proof (c_idle s HC Ec Hnone Esf). lia. }
+  intros HC. cbn [Gate.step]. destruct (held s && negb (spawning s) && (negb (eofsent s) || eofflag s)) eqn:E; [|exact HC].
+  apply andb_true_iff in E as [E Egu]. apply andb_true_iff in E as [Eed Esf]. apply negb_true_iff in Esf.
+  assert (Hup : eofsent s = true -> eofflag s = true).
+  { intros He. rewrite He in Egu. exact Egu. }
+  pose proof (c_range s HC) as Hr2.
+  destruct (closed s) eqn:Ec.
+  - (* closed: the counter stays positive, nobody is started *)
+    destruct (c_closed s HC Ec) as (Hr & Hta & _ & Hav & Hes).
+    destruct (2 <=? r s) eqn:E2; boolprop.
+    + destruct HC. constructor; fields; rewrite ?Ec, ?Hta in *; try solve [fin].
+    + assert (Hr1 : r s = 1) by lia. rewrite Hr1; cbn [Nat.eqb].
+      destruct HC. constructor; fields; rewrite ?Ec, ?Hta in *; try solve [fin].
+  - destruct (2 <=? r s) eqn:E2; boolprop.
+    + (* counter already 2: the event is dropped; a task is alive and owes one more pass *)
+      assert (Hr : r s = 2) by lia.
+      pose proof (idle_has_task s HC Ec Esf ltac:(lia)) as Hta.
       destruct HC. constructor; fields; rewrite ?Ec in *; try solve [fin].
-      * intros _ _. unfold will_read; fields. rewrite Hr2. destruct (task s) as [[]|]; try reflexivity; try contradiction. cbn. apply orb_true_r.
-      * intros _ _. unfold will_check; fields. rewrite Hr2. destruct (task s) as [[]|]; try reflexivity; contradiction.
-  - destruct (closed s) eqn:Ec.
-    + (* closed: the counter only moves from 1 to 2 *)
-      destruct (c_closed s HC Ec) as (Hr & Hta & _ & Hav & Hes).
-      assert (Hr1 : r s = 1) by lia. rewrite Hr1; cbn [Nat.eqb].
-      destruct HC. constructor; fields; rewrite ?Ec, ?Hta in *; fin.
+      all: intros; unfold will_read, will_check, alive; fields; rewrite ?Hr;
+        destruct (task s) as [[]|]; try contradiction; cbn; repeat rewrite orb_true_r; reflexivity.
     + destruct (r s) as [|[|n]] eqn:Er; [| |lia]; cbn [Nat.eqb].
       * (* 0 -> 1: the poller will spawn *)
         assert (Hta : task s = None).
@@ -138,73 +214,93 @@ Proof.
           destruct (c_task s HC Hx). lia. }
         destruct HC. constructor; fields; rewrite ?Ec, ?Hta in *; try solve [fin].
       * (* 1 -> 2: a task is alive, it will make another pass *)
-        assert (Hta : task s <> None).
-        { intros Hnone. pose proof (c_idle s HC Ec Hnone Esf). lia. }
+        pose proof (idle_has_task s HC Ec Esf ltac:(lia)) as Hta.
         destruct HC. constructor; fields; rewrite ?Ec in *; try solve [fin].
-        -- intros _ _. unfold will_read; fields. destruct (task s) as [[]|]; try reflexivity; try contradiction. cbn. apply orb_true_r.
-        -- intros _ _. unfold will_check; fields. destruct (task s) as [[]|]; try reflexivity; contradiction.
+        all: intros; unfold will_read, will_check, alive; fields;
+          destruct (task s) as [[]|]; try contradiction; cbn; repeat rewrite orb_true_r; reflexivity.
 Qed.
 
 Lemma ctl_spawn s : Ctl s -> Ctl (step s PollSpawn).
 Proof.
-  intros HC. cbn [step]. destruct (spawning s) eqn:E; [|exact HC].
+  intros HC. cbn [Gate.step]. destruct (spawning s) eqn:E; [|exact HC].
   destruct (c_spawn s HC E) as (Hta & Hr & Hc).
   destruct HC. constructor; fields; rewrite ?Hc, ?Hta in *; try solve [fin].
-Qed.
-
-Lemma ctl_markeof s : Ctl s -> Ctl (step s PollMarkEOF).
-Proof.
-  intros HC. cbn [step]. destruct (eofsent s && negb (eofflag s) && negb (spawning s)) eqn:E; [|exact HC].
-  apply andb_true_iff in E as [E Esf]. apply andb_true_iff in E as [Ees Eef].
-  apply negb_true_iff in Esf. apply negb_true_iff in Eef.
-  destruct HC. constructor; fields; try solve [fin].
+  intros _ He Hf. specialize (c_hup0 eq_refl He Hf). unfold alive in *; fields.
+  destruct (edge s), (held s), oneshot; norm; try reflexivity; try discriminate; try assumption.
 Qed.
 
 Lemma ctl_read s buf : Ctl s -> Ctl (step s (TaskRead buf)).
 Proof.
-  intros HC. cbn [step]. destruct (task s) as [[]|] eqn:Et; try exact HC.
+  intros HC. cbn [Gate.step]. destruct (task s) as [[]|] eqn:Et; try exact HC.
   assert (Hx : task s <> None) by (rewrite Et; discriminate).
   destruct (c_task s HC Hx) as [Hr Hc]. pose proof (spawning_no_task s HC Hx) as Hsf.
   destruct (length (firstn (S buf) (avail s)) <? S buf) eqn:El; boolprop;
-    destruct HC; constructor; fields; rewrite ?Hc, ?Hsf, ?Et in *; try solve [fin].
-  - intros _ Hav. exfalso. apply Hav. apply short_read_drains. exact El.
+    destruct HC; constructor; unfold alive in *; fields; rewrite ?Hc, ?Hsf, ?Et in *; try solve [fin].
+  intros _ Hav. exfalso. apply Hav. apply short_read_drains. exact El.
 Qed.
 
 Lemma ctl_check s : Ctl s -> Ctl (step s TaskCheck).
 Proof.
-  intros HC. cbn [step]. destruct (task s) as [[]|] eqn:Et; try exact HC.
+  intros HC. cbn [Gate.step]. destruct (task s) as [[]|] eqn:Et; try exact HC.
   assert (Hx : task s <> None) by (rewrite Et; discriminate).
   destruct (c_task s HC Hx) as [Hr Hc]. pose proof (spawning_no_task s HC Hx) as Hsf.
-  destruct (eofflag s) eqn:Ef; destruct HC; constructor; fields; rewrite ?Hc, ?Hsf, ?Et, ?Ef in *; try solve [fin].
-  - intros _ Hav. specialize (c_data0 eq_refl Hav). unfold will_read in *; fields. rewrite ?Et, ?Ef, ?Hsf in c_data0. rewrite ?Hsf. cbn in c_data0. exact c_data0.
+  destruct (eofflag s) eqn:Ef; destruct HC; constructor; unfold alive in *; fields; rewrite ?Hc, ?Hsf, ?Et, ?Ef in *; try solve [fin].
+  intros _ Hav. specialize (c_data0 eq_refl Hav). unfold will_read in *; fields.
+  rewrite ?Et, ?Ef, ?Hsf in *. cbn in *. exact c_data0.
 Qed.
 
 Lemma ctl_dec s : Ctl s -> Ctl (step s TaskDec).
 Proof.
-  intros HC. cbn [step]. destruct (task s) as [[]|] eqn:Et; try exact HC.
+  intros HC. cbn [Gate.step]. destruct (task s) as [[]|] eqn:Et; try exact HC.
   assert (Hx : task s <> None) by (rewrite Et; discriminate).
   destruct (c_task s HC Hx) as [Hr Hc]. pose proof (spawning_no_task s HC Hx) as Hsf. pose proof (c_range s HC) as Hr2.
-  destruct (r s =? 1) eqn:E1; boolprop; destruct HC; constructor; fields; rewrite ?Hc, ?Hsf, ?Et in *; try solve [fin].
-  - (* the task ends: unread data must have an edge *)
-    intros _ Hav. specialize (c_data0 eq_refl Hav). destruct (edge s) eqn:Ee; [fin|].
-    exfalso. unfold will_read in c_data0. rewrite Ee, Hsf, Et, E1 in c_data0. discriminate.
-  - intros _ Hf. specialize (c_eof0 eq_refl Hf). destruct (edge s) eqn:Ee; [fin|].
-    exfalso. unfold will_check in c_eof0. rewrite Ee, Hsf, Et, E1 in c_eof0. discriminate.
+  destruct (r s =? 1) eqn:E1; boolprop.
+  - (* the task ends: in ET what is pending must have its edge; in one-shot mode the re-arm will queue it *)
+    destruct oneshot eqn:Eo.
+    + destruct HC; constructor; unfold alive in *; fields; rewrite ?Hc, ?Hsf, ?Et in *; try solve [fin].
+    + assert (Hre : rearm s = 0).
+      { destruct (rearm s) eqn:Er; [reflexivity|]. pose proof (c_rearm s HC ltac:(lia)). congruence. }
+      destruct HC; constructor; unfold alive in *; fields; rewrite ?Hc, ?Hsf, ?Et, ?Hre in *; try solve [fin].
+      * intros _ Hav. specialize (c_data0 eq_refl Hav). unfold will_read in *; fields.
+        rewrite ?Et, ?Hsf, ?Hre, ?E1, ?Eo in *. norm. exact c_data0.
+      * intros _ Hf. specialize (c_eof0 eq_refl Hf). unfold will_check in *; fields.
+        rewrite ?Et, ?Hsf, ?Hre, ?E1, ?Eo in *. norm. exact c_eof0.
+      * intros _ He Hf. specialize (c_hup0 eq_refl He Hf). rewrite ?Eo in *. norm. exact c_hup0.
+  - destruct HC; constructor; unfold alive in *; fields; rewrite ?Hc, ?Hsf, ?Et in *; try solve [fin].
 Qed.
 
 Lemma ctl_drain s buf : Ctl s -> Ctl (step s (TaskDrain buf)).
 Proof.
-  intros HC. cbn [step]. destruct (task s) as [[]|] eqn:Et; try exact HC.
+  intros HC. cbn [Gate.step]. destruct (task s) as [[]|] eqn:Et; try exact HC.
   assert (Hx : task s <> None) by (rewrite Et; discriminate).
   destruct (c_task s HC Hx) as [Hr Hc]. pose proof (spawning_no_task s HC Hx) as Hsf.
   pose proof (c_drain s HC Et) as Hf. pose proof (c_flag s HC Hf) as Hes.
-  destruct (avail s) eqn:Ea; destruct HC; constructor; fields; rewrite ?Hc, ?Hsf, ?Et in *; try solve [fin].
+  destruct (avail s) eqn:Ea; destruct HC; constructor; unfold alive in *; fields; rewrite ?Hc, ?Hsf, ?Et in *; try solve [fin].
+Qed.
+
+Lemma ctl_close s : Ctl s -> Ctl (step s TaskClose).
+Proof.
+  intros HC. cbn [Gate.step]. destruct (task s) as [[]|] eqn:Et; try exact HC.
+  assert (Hx : task s <> None) by (rewrite Et; discriminate).
+  destruct (c_task s HC Hx) as [Hr Hc]. pose proof (spawning_no_task s HC Hx) as Hsf.
+  destruct (c_closing s HC Et) as [Hf Hav]. pose proof (c_flag s HC Hf) as Hes.
+  destruct HC; constructor; unfold alive in *; fields; rewrite ?Hsf, ?Et in *; try solve [fin].
+Qed.
+
+Lemma ctl_rearm s : Ctl s -> Ctl (step s TaskRearm).
+Proof.
+  intros HC. cbn [Gate.step]. destruct (0 <? rearm s) eqn:Er; [|exact HC].
+  apply Nat.ltb_lt in Er. pose proof (c_rearm s HC Er) as Ho.
+  destruct (closed s) eqn:Ec.
+  - destruct HC. constructor; fields; rewrite ?Ec in *; try solve [fin].
+  - destruct HC. constructor; fields; rewrite ?Ec in *; try solve [fin].
+    intros _ Hav. unfold will_read, readable, nonempty; fields. destruct (avail s); [contradiction|]. cbn. repeat rewrite orb_true_r. reflexivity.
 Qed.
 
 Lemma step_ctl s a : Ctl s -> Ctl (step s a).
 Proof.
-  destruct a; [apply ctl_arrive | apply ctl_peereof | apply ctl_gate | apply ctl_spawn | apply ctl_markeof
-              | apply ctl_read | apply ctl_check | apply ctl_dec | apply ctl_drain].
+  destruct a; [apply ctl_arrive | apply ctl_peereof | apply ctl_mod | apply ctl_take | apply ctl_markeof | apply ctl_gate | apply ctl_spawn
+              | apply ctl_read | apply ctl_check | apply ctl_dec | apply ctl_drain | apply ctl_close | apply ctl_rearm].
 Qed.
 
 Lemma init_acc : Acc (@init A). Proof. reflexivity. Qed.
@@ -213,7 +309,7 @@ Proof. constructor; cbn; fin. Qed.
 
 Lemma run_inv (l : list action) : Acc (run l) /\ Ctl (run l).
 Proof.
-  unfold run. generalize init_acc init_ctl. generalize (@init A).
+  unfold Gate.run. generalize init_acc init_ctl. generalize (@init A).
   induction l as [|a l IH]; intros s Ha Hc; cbn; [split; assumption|].
   apply IH; [apply step_acc | apply step_ctl]; assumption.
 Qed.
@@ -226,31 +322,37 @@ Lemma prefix (l : list action) : exists rest, sent (run l) = delivered (run l) +
 Proof. destruct (run_inv l) as [Ha _]. exists (avail (run l)). symmetry. exact Ha. Qed.
 
 Lemma no_lost_edge (l : list action) :
-  closed (run l) = false -> avail (run l) <> [] -> edge (run l) = true \/ spawning (run l) = true \/ task (run l) <> None.
+  closed (run l) = false -> avail (run l) <> [] ->
+  edge (run l) = true \/ held (run l) = true \/ spawning (run l) = true \/ 0 < rearm (run l) \/ task (run l) <> None.
 Proof.
   destruct (run_inv l) as [_ HC]. intros Hc H. pose proof (c_data _ HC Hc H) as W. unfold will_read in W.
-  destruct (edge (run l)); [left; reflexivity|]. destruct (spawning (run l)); [right; left; reflexivity|].
-  right; right. destruct (task (run l)); [discriminate|discriminate].
+  destruct (edge (run l)); [left; reflexivity|]. destruct (held (run l)); [right; left; reflexivity|].
+  destruct (spawning (run l)); [right; right; left; reflexivity|].
+  destruct (rearm (run l)) as [|k]; [|right; right; right; left; lia].
+  right; right; right; right. destruct (task (run l)); discriminate.
 Qed.
 
 Lemma complete (l : list action) : quiescent (run l) -> delivered (run l) = sent (run l).
 Proof.
-  intros (Q1 & Q2 & Q3 & Q4). destruct (run_inv l) as [Ha HC]. unfold Acc in Ha.
+  intros (Q1 & Q0 & Q2 & Q3 & Q4). destruct (run_inv l) as [Ha HC]. unfold Acc in Ha.
   assert (Hav : avail (run l) = []).
   { destruct (closed (run l)) eqn:Ec.
     - destruct (c_closed _ HC Ec) as (_&_&_&H&_). exact H.
     - destruct (avail (run l)) eqn:Ea; [reflexivity|].
       assert (Hne : avail (run l) <> []) by (rewrite Ea; discriminate).
-      destruct (no_lost_edge l Ec Hne) as [H|[H|H]]; congruence. }
+      destruct (no_lost_edge l Ec Hne) as [H|[H|[H|[H|H]]]]; try congruence; lia. }
   rewrite Hav, app_nil_r in Ha. exact Ha.
 Qed.
 
 (* the end of the stream is not forgotten: once nobody can act any more, the connection has been closed *)
 Lemma eof_closes (l : list action) : quiescent (run l) -> eofsent (run l) = true -> closed (run l) = true.
 Proof.
-  intros (Q1 & Q2 & Q3 & Q4) He. destruct (run_inv l) as [_ HC].
+  intros (Q1 & Q0 & Q2 & Q3 & Q4) He. destruct (run_inv l) as [_ HC].
   destruct (closed (run l)) eqn:Ec; [reflexivity|].
-  pose proof (c_eof _ HC Ec (Q4 He)) as W. unfold will_check in W. rewrite Q1, Q2, Q3 in W. discriminate.
+  destruct (eofflag (run l)) eqn:Ef.
+  - pose proof (c_eof _ HC Ec Ef) as W. unfold will_check in W. rewrite Q1, Q0, Q2, Q3, Q4 in W. discriminate.
+  - pose proof (c_hup _ HC Ec He Ef) as W. unfold alive in W. rewrite Q1, Q0, Q2, Q3, Q4 in W. cbn in W.
+    rewrite andb_false_r in W. discriminate.
 Qed.
 
 (* and it is closed only after everything the peer sent has been delivered *)
@@ -273,74 +375,6 @@ Proof.
       destruct (c_task _ HC Hx). lia.
     + destruct (spawning (run l)) eqn:Es; [|reflexivity]. destruct (c_spawn _ HC Es) as (_&H&_). lia.
   - intros [H1 H2]. apply (c_idle _ HC); assumption.
-Qed.
-
-(* ---- nobody spins: without new input only finitely many steps are possible ---- *)
-Definition measure (s : st) : nat :=
-  4 * length (avail s) + (if edge s then 10 else 0) + (if spawning s then 4 else 0) + 4 * r s +
-  (if eofflag s then 0 else 11) +
-  match task s with Some TReading => 3 | Some TAtCheck => 2 | Some TAtDec => 1 | Some TDraining => 1 | None => 0 end.
-
-Definition is_input (a : action) : bool := match a with Arrive _ _ | PeerEOF => true | _ => false end.
-
-Lemma step_decreases s a : Ctl s -> is_input a = false -> enabled s a = true -> measure (step s a) < measure s.
-Proof.
-  intros HC Ha He.
-  destruct a as [x d| | | | |buf| | |buf]; try discriminate; cbn [enabled] in He; cbn [step].
-  - rewrite He. apply andb_true_iff in He as [Eed Esf]. apply negb_true_iff in Esf.
-    destruct (2 <=? r s) eqn:E2; boolprop; unfold measure; fields; rewrite Eed, ?Esf.
-    + destruct (eofflag s), (task s) as [[]|]; lia.
-    + destruct (r s =? 0); destruct (eofflag s), (task s) as [[]|]; lia.
-  - rewrite He. destruct (c_spawn s HC He) as (Hta & Hr & _). unfold measure; fields. rewrite He, Hta.
-    destruct (edge s), (eofflag s); lia.
-  - rewrite He. apply andb_true_iff in He as [E Esf]. apply andb_true_iff in E as [Ees Eef].
-    apply negb_true_iff in Eef. unfold measure; fields. rewrite Eef.
-    destruct (edge s), (spawning s), (task s) as [[]|]; lia.
-  - destruct (task s) as [[]|] eqn:Et; try discriminate. unfold measure; fields; rewrite ?Et.
-    rewrite skipn_length.
-    destruct (length (firstn (S buf) (avail s)) <? S buf) eqn:El; boolprop.
-    + destruct (edge s), (spawning s), (eofflag s); lia.
-    + rewrite firstn_length in El. destruct (edge s), (spawning s), (eofflag s); lia.
-  - destruct (task s) as [[]|] eqn:Et; try discriminate. unfold measure; fields; rewrite ?Et.
-    destruct (edge s), (spawning s), (eofflag s); lia.
-  - destruct (task s) as [[]|] eqn:Et; try discriminate.
-    assert (Hx : task s <> None) by (rewrite Et; discriminate). destruct (c_task s HC Hx) as [Hr _].
-    destruct (r s =? 1) eqn:E1; boolprop; unfold measure; fields; rewrite ?Et; destruct (edge s), (spawning s), (eofflag s); lia.
-  - destruct (task s) as [[]|] eqn:Et; try discriminate.
-    destruct (avail s) eqn:Ea; unfold measure; fields; rewrite ?Et, ?Ea.
-    + destruct (edge s), (spawning s), (eofflag s); cbn [length]; lia.
-    + rewrite skipn_length. cbn [length]. destruct (edge s), (spawning s), (eofflag s); lia.
-Qed.
-
-Fixpoint steps_taken (s : st) (l : list action) : nat :=
-  match l with
-  | [] => 0
-  | a :: l' => (if enabled s a then 1 else 0) + steps_taken (step s a) l'
-  end.
-
-Lemma disabled_noop (s : st) (a : action) : enabled s a = false -> step s a = s.
-Proof.
-  destruct a as [x d| | | | |buf| | |buf]; cbn [enabled step]; intros H.
-  - apply negb_false_iff in H. rewrite H. reflexivity.
-  - apply negb_false_iff in H. rewrite H. reflexivity.
-  - rewrite H. reflexivity.
-  - rewrite H. reflexivity.
-  - rewrite H. reflexivity.
-  - destruct (task s) as [[]|]; try discriminate; reflexivity.
-  - destruct (task s) as [[]|]; try discriminate; reflexivity.
-  - destruct (task s) as [[]|]; try discriminate; reflexivity.
-  - destruct (task s) as [[]|]; try discriminate; reflexivity.
-Qed.
-
-Lemma bounded_work : forall l s, Ctl s -> forallb (fun a => negb (is_input a)) l = true ->
-  steps_taken s l + measure (fold_left step l s) <= measure s.
-Proof.
-  induction l as [|a l IH]; intros s HC Hl; cbn [steps_taken fold_left]; [lia|].
-  cbn [forallb] in Hl. apply andb_true_iff in Hl as [Ha Hl]. apply negb_true_iff in Ha.
-  specialize (IH (step s a) (step_ctl s a HC) Hl).
-  destruct (enabled s a) eqn:E.
-  - pose proof (step_decreases s a HC Ha E). lia.
-  - rewrite (disabled_noop s a E) in *. lia.
 Qed.
 
 End P.
